@@ -247,7 +247,7 @@ def gen_cases(chk):
         reps = rng.sample(reps, min(len(reps), 1500))
     cases = [{"steps": rp} for rp in reps]
     n1 = len(cases)
-    nsim = 80 if quick else 3000
+    nsim = 80 if quick else 1500
     rs = vlib.run_tlc("MC_Annot", "MC_Annot_sim.cfg", workers=1, coverage=False, simulate=f"num={nsim}",
                       extra=["-depth", "45", "-seed", str(chk.seed)], timeout=3000)
     if rs.rc != 0 or rs.violation or not rs.replays:
@@ -259,7 +259,7 @@ def gen_cases(chk):
             seen.add(key)
             cases.append({"steps": rp})
     n2 = len(cases)
-    for k in range(100 if quick else 4000):
+    for k in range(100 if quick else 1500):
         cases.append(rand_case(rng, rng.choice([3, 8, 20, 40]) if quick else rng.choice([3, 8, 20, 40, 60])))
     n3 = len(cases)
     for k in range(60 if quick else 600):
@@ -324,7 +324,7 @@ def run(chk):
     events = judge(chk, cases)
     # hash-map iteration order differs per process and per map instance: link-heavy cases again, in fresh processes
     heavy = [c for c in cases if link_heavy(c)]
-    rounds = 3 if quick else 50
+    rounds = 3 if quick else 30
     small = [c for c in heavy if len(c["steps"]) <= 12]
     big = [c for c in heavy if len(c["steps"]) > 12]
     pick = (small if len(small) <= 150 else chk.rng.sample(small, 150)) + (big if len(big) <= 8 else chk.rng.sample(big, 8)) \
